@@ -101,9 +101,9 @@ func init() {
 			"distinct_nontrivial = distinct in-domain cases",
 		Assume: []string{"argv longer than L and other option sets are not covered"},
 		Run: func(c *RunCtx) {
-			depth := 3
+			depth := 4
 			if c.Tier == "thorough" {
-				depth = 4
+				depth = 5
 			}
 			type cfg struct {
 				def *ph.Def
